@@ -320,7 +320,8 @@ class KeyedSet(Generic[ItemType, KeyType], MutableSet, KeyedBase):  # pylint: di
                     or self.enforce_item_equivalence
                     and item_or_key == self._dict[key]
                 )
-        except TypeError:
+        except Exception:  # pylint: disable=broad-except
+            # The key function does not apply, so this is not an item.
             pass
         return False
 
@@ -359,7 +360,8 @@ class KeyedSet(Generic[ItemType, KeyType], MutableSet, KeyedBase):  # pylint: di
                 and value == self._dict[key]
             ):
                 del self._dict[key]
-        except TypeError:
+        except Exception:  # pylint: disable=broad-except
+            # The key function does not apply, so this is not an item.
             pass
 
     def _from_iterable(self, iterable):  # pylint: disable=arguments-differ
@@ -406,7 +408,11 @@ class KeyedSet(Generic[ItemType, KeyType], MutableSet, KeyedBase):  # pylint: di
                 return self._dict[key]
         except TypeError:
             pass
-        item_key = self.key(key)
-        if item_key in self._dict:
-            return self._dict[item_key]
+        try:
+            item_key = self.key(key)
+            if item_key in self._dict:
+                return self._dict[item_key]
+        except Exception:  # pylint: disable=broad-except
+            # The key function does not apply, so this is not an item.
+            pass
         raise KeyError(key)
